@@ -74,6 +74,16 @@ def expected (W : World N V T) (s : Sig N V T) (args : List V) (kw : List (N × 
     | some a, some k => (pyBindCore s a k).map .body
     | _, _ => some .perr
 
+/-- the undecorated generator with its tail hand-overs followed: the generator it yields takes over and is started
+with `next()`; whatever was sent to the old one was consumed by the old one -/
+def flat {σ : Type} (raw : σ → Option V → RawStep σ V) : Nat → σ → Option V → Step σ V
+  | 0, _, _ => .diverged
+  | fuel + 1, st, inp =>
+    match raw st inp with
+    | .yield v st' => .yield v st'
+    | .ret r => .ret r
+    | .delegate st' => flat raw fuel st' none
+
 /-- generator: raw machine on converted sends, outputs converted, cut at the first failure -/
 def genTrace (W : World N V T) (g : GenTypes T) {σ : Type} (step : σ → Option V → Step σ V) :
     σ → Option V → List (Option V) → List (Ev V)
@@ -82,6 +92,8 @@ def genTrace (W : World N V T) (g : GenTypes T) {σ : Type} (step : σ → Optio
     | none => [.raised]
     | some inp' =>
       match step st inp' with
+      | .escaped => [.escaped]
+      | .diverged => [.diverged]
       | .ret none => [.returned none]
       | .ret (some r) =>
         match convO W g.retT r with
